@@ -15,16 +15,24 @@ from .common import ser_value, ser_ctx, ser_env, errkind
 
 def sim_exprs(sigs, exprs, envs, want_tb=True):
     """returns per expr: list over envs of (circuit, tb) values, or ('error', kind, text)"""
-    from amaranth.hdl import Module, Signal
+    from amaranth.hdl import Module, Signal, Shape
     from amaranth.sim import Simulator
 
     def attempt(idxs):
         m = Module()
         outs = {}
+        wide = {}
         for k in idxs:
             o = Signal(exprs[k].shape(), name=f"o{k}")
             m.d.comb += o.eq(exprs[k])
             outs[k] = o
+            # the same expression assigned to a target three bits wider of the same signedness: extended by its own
+            # signedness it must show the same integer (a seeded change dropped the normalisation of unsigned
+            # right-hand sides, visible only in a wider target)
+            sh = exprs[k].shape()
+            ow = Signal(Shape(sh.width + 3, sh.signed), name=f"ow{k}")
+            m.d.comb += ow.eq(exprs[k])
+            wide[k] = ow
         sim = Simulator(m)
         res = {k: [None] * len(envs) for k in idxs}
 
@@ -34,6 +42,9 @@ def sim_exprs(sigs, exprs, envs, want_tb=True):
                     ctx.set(s, v)
                 for k in idxs:
                     c = ctx.get(outs[k])
+                    cw = ctx.get(wide[k])
+                    if cw != c:
+                        c = ("wider-target-differs", c, cw)
                     t = ctx.get(exprs[k]) if want_tb else None
                     res[k][j] = (c, t)
         sim.add_testbench(tb)
